@@ -436,7 +436,7 @@ func (x *Exec) convert(st *State, fr *Frame, in *ssa.Convert) Val {
 		r := x.fresh(st, to, "f2i")
 		lo, hi, _ := IntRange(to)
 		rr := "(fp.to_real (fp.roundToIntegral RTZ " + s + "))"
-		inr := And(Not("(fp.isNaN "+s+")"), Not("(fp.isInfinite "+s+")"), "(<= "+BigLit(lo)+".0 "+rr+")", "(<= "+rr+" "+BigLit(hi)+".0)")
+		inr := And(Not("(fp.isNaN "+s+")"), Not("(fp.isInfinite "+s+")"), "(<= (to_real "+BigLit(lo)+") "+rr+")", "(<= "+rr+" (to_real "+BigLit(hi)+"))")
 		x.assume(st, Imp(inr, "(= (to_real "+r.S+") "+rr+")"))
 		x.note("float→int conversion of an out-of-range or NaN value yields an unconstrained integer (implementation-defined in Go)")
 		return r
